@@ -19,8 +19,35 @@ Proof. unfold dred. pose proof (pstrip_eq (Qden q) (Qnum q)) as H.
   destruct (pstrip (Qnum q) (Qden q)). rewrite H. destruct q; reflexivity. Qed.
 Lemma cred_eq z : cred z =c= z.
 Proof. split; unfold cred, re, im; simpl; apply dred_eq. Qed.
+Lemma plog2_spec d : forall k, plog2 d = Some k -> Zpos d = (2 ^ Z.of_nat k)%Z.
+Proof.
+  induction d as [d IH|d IH|]; intros k H; simpl in H; try discriminate.
+  - destruct (plog2 d) as [k'|] eqn:E; simpl in H; [|discriminate]. inversion H; subst k.
+    rewrite Pos2Z.inj_xO, (IH k' eq_refl), Nat2Z.inj_succ, Z.pow_succ_r by lia. reflexivity.
+  - inversion H. reflexivity.
+Qed.
+Lemma dadd_eq x y : dadd x y == x + y.
+Proof.
+  unfold dadd. destruct (plog2 (Qden x)) as [a|] eqn:Ea; [|reflexivity].
+  destruct (plog2 (Qden y)) as [b|] eqn:Eb; [|reflexivity].
+  apply plog2_spec in Ea. apply plog2_spec in Eb.
+  destruct x as [nx dx], y as [ny dy]; simpl in *.
+  destruct (a <=? b)%nat eqn:E; unfold Qeq, Qplus; simpl; rewrite Z.shiftl_mul_pow2 by lia.
+  - apply Nat.leb_le in E. rewrite !Pos2Z.inj_mul, Ea, Eb.
+    assert (Hb : (2 ^ Z.of_nat b = 2 ^ Z.of_nat a * 2 ^ Z.of_nat (b - a))%Z)
+      by (rewrite <- Z.pow_add_r by lia; f_equal; lia).
+    rewrite Hb. ring.
+  - apply Nat.leb_gt in E. rewrite !Pos2Z.inj_mul, Ea, Eb.
+    assert (Hb : (2 ^ Z.of_nat a = 2 ^ Z.of_nat b * 2 ^ Z.of_nat (a - b))%Z)
+      by (rewrite <- Z.pow_add_r by lia; f_equal; lia).
+    rewrite Hb. ring.
+Qed.
+Lemma caddd_eq a b : caddd a b =c= cadd a b.
+Proof. split; unfold caddd, cadd, re, im; simpl; apply dadd_eq. Qed.
+Lemma cmuld_eq a b : cmuld a b =c= cmul a b.
+Proof. split; unfold cmuld, cmul, re, im; simpl; rewrite dadd_eq; ring. Qed.
 Lemma csumr_eq f n : csumr f n =c= csumn f n.
-Proof. induction n; simpl; [reflexivity|]. rewrite cred_eq, IHn. reflexivity. Qed.
+Proof. induction n; simpl; [reflexivity|]. rewrite cred_eq, caddd_eq, IHn. reflexivity. Qed.
 
 Lemma nq_pos n : (0 < n)%nat -> 0 < nq n.
 Proof. intros H. unfold nq, Qlt; simpl. lia. Qed.
@@ -263,7 +290,7 @@ Proof. unfold conj_sl. destruct (c_conj ch); [apply Hc|reflexivity]. Qed.
 
 Lemma prod_uniform (a b : list Q) k s : length a = n -> length b = n -> (s < nwin n)%nat -> (k < ubi - lbi)%nat ->
   prod_sl (slices_of dft wv a nfft o lbi ubi) (conj_rows (slices_of dft wv b nfft o lbi ubi)) s k
-  = cmul (Xs a s (lbi + k)) (cconj (Xs b s (lbi + k))).
+  = cmuld (Xs a s (lbi + k)) (cconj (Xs b s (lbi + k))).
 Proof.
   intros Ha Hb Hs Hk. unfold prod_sl. rewrite at2_conj_rows, !at2_slices; auto; congruence.
 Qed.
@@ -274,7 +301,7 @@ Lemma wmean_uniform (a b : list Q) k : length a = n -> length b = n -> (k < ubi 
 Proof.
   intros Ha Hb Hk. rewrite wmean_eq by apply nwin_pos. unfold Cache.U.
   apply cscale_proper; [reflexivity|]. apply csumn_ext. intros s Hs.
-  rewrite prod_uniform; auto. reflexivity.
+  rewrite prod_uniform; auto. apply cmuld_eq.
 Qed.
 
 (* all four branches of cache_to_coherency compute the same three numbers *)
@@ -315,9 +342,9 @@ Qed.
 
 Lemma relphase_uniform k : (k < ubi - lbi)%nat ->
   match relphase_entry ch i j k with
-  | PAngle z => nwin n = 1%nat /\ z = cmul (Xs xi 0 (lbi + k)) (cconj (Xs xj 0 (lbi + k)))
+  | PAngle z => nwin n = 1%nat /\ z = cmuld (Xs xi 0 (lbi + k)) (cconj (Xs xj 0 (lbi + k)))
   | PMeanAngle zs => (1 < nwin n)%nat /\
-      zs = map (fun s => cmul (Xs xi s (lbi + k)) (cconj (Xs xj s (lbi + k)))) (seq 0 (nwin n))
+      zs = map (fun s => cmuld (Xs xi s (lbi + k)) (cconj (Xs xj s (lbi + k)))) (seq 0 (nwin n))
   | PZero => False
   end.
 Proof.
@@ -339,10 +366,10 @@ Lemma csd_uniform (x y : list Q) n fs sbf K : length x = n -> length y = n -> (K
 Proof.
   intros Hx Hy HK. unfold mlab_csd_from. rewrite mlab_length, Hx.
   apply cscale_proper; [reflexivity|].
-  change (wmean (nwin n) (fun s => cmul (cconj (at2 (mlab_spectrum dft wv x nfft o) s K))
+  change (wmean (nwin n) (fun s => cmuld (cconj (at2 (mlab_spectrum dft wv x nfft o) s K))
                                         (at2 (mlab_spectrum dft wv y nfft o) s K)) =c= U y x (nwin n) K).
   rewrite wmean_eq by apply nwin_pos. unfold Cache.U. apply cscale_proper; [reflexivity|].
-  apply csumn_ext. intros s Hs. rewrite !at2_mlab by (auto; congruence). cring.
+  apply csumn_ext. intros s Hs. rewrite !at2_mlab by (auto; congruence). rewrite cmuld_eq. cring.
 Qed.
 End Uniform.
 
@@ -636,7 +663,7 @@ Proof.
   destruct (relphase_entry ch (Z.of_nat i) (Z.of_nat j) k) as [|z|zs]; [tauto| |lia].
   destruct R as [_ Ez]. pose proof (rdense_pos (lbi + k)) as Hr.
   exists z, (/ rdense (lbi + k)). split; [reflexivity|]. split; [apply Qinv_lt_0_compat; auto|].
-  rewrite dense_fxy_uniform by (auto; lia). fold xi xj. rewrite H1. subst z. unfold Cache.U. cbn [csumn].
+  rewrite dense_fxy_uniform by (auto; lia). fold xi xj. rewrite H1. subst z. rewrite cmuld_eq. unfold Cache.U. cbn [csumn].
   assert (~ rdense (lbi + k) == 0) by (intro E; rewrite E in Hr; apply (Qlt_irrefl 0 Hr)).
   split; unfold cscale, cadd, c0, cmul, cconj, nq, re, im; simpl; field; auto.
 Qed.
